@@ -498,6 +498,12 @@ class Report:
                 continue
             seen_f.add(f["id"])
             print("KNOWN-FINDING: property=%s %s [%s]" % (self.prop, f["what"], f["id"]))
+        # one representative of every distinct failure key first
+        firsts, rest, seen_k = [], [], set()
+        for v in self.violations:
+            (rest if v["key"] in seen_k else firsts).append(v)
+            seen_k.add(v["key"])
+        self.violations = firsts + rest
         for i, v in enumerate(self.violations[:50]):
             path = rep_dir / ("%s_%s_%s_%d.json" % (self.prop, self.tier, self.seed, i))
             body = dict(v)
